@@ -33,6 +33,12 @@ CLAIMED = {
  "C07": ("bit-precise symbolic execution of the LLVM IR that clang-14 produces from the real bpf/*.c on every run: in-bounds obligation per memory access, unwinding obligation per loop, verdict-set and pass-unmodified obligations per program; z3/cvc5; counterexamples replayed on the natively compiled C against a guard page",
          "Deductive proof, for every frame length 0..65535, every frame content, every ctx and every map state, that the seven XDP/TC entry points only touch bytes inside their regions (packet, stack, map values), terminate (loops fully unrolled with unwinding obligations), return a verdict of their program type, and return the pass verdict only with the frame unmodified unless the program's acts predicate holds. Two genuine pass-after-rewrite paths in dhcp_fastpath.c were found, replayed natively and repaired.",
          "Trusted: clang/opt, the IR executor written for this task, solvers, BPF helper contracts (assumed), x86_64 IR standing for the bpf target.", "DESIGN.md §5 C07"),
+ "C20": ("lock invariants (forward map / reverse map agreement, range, freshness) and whole-view postconditions on nexus.VLANAllocator, pppoe.SessionManager and the qinq/ebpf key constructors, with loop invariants and variants; VCs discharged by z3/cvc5",
+         "Deductive proof that each (S-TAG, C-TAG) pair and each PPPoE session id identifies at most one subscriber, allocated pairs lie inside the configured ranges, forward and reverse indexes agree after every operation (Allocate, AllocateWithSTag, Release, LoadFromStore, CreateSession, RemoveSession, CleanupExpired), release leaves every other mapping untouched, every search loop terminates, and key constructors are the stated functions of their inputs. Eleven failing obligations were genuine defects, repaired in four fix: commits. Not claimed: reachability of an older session of a MAC after the newest one is removed; injectivity of the 32-byte circuit-id key (see DESIGN.md).",
+         "Trusted: VC generator, solvers, Go-map model, monitor model for the allocator/session-manager mutexes, NewSession's crypto/rand model.", "DESIGN.md §7 C20"),
+ "C10": ("lock invariants on nat.Manager (pool counters, configuration validity, id uniqueness, block disjointness) and postconditions on NewManager/AddPublicIP/AllocateNAT/DeallocateNAT; VCs discharged by z3/cvc5",
+         "Deductive proof that the configuration accepted by NewManager keeps every block inside the port range with the configured size, that pool counters stay within capacity, and that allocation records carry the block they were given; the block-disjointness invariant and the 'same block until released' postconditions FAIL on the current code and are recorded as known findings with replays (count-derived blocks; check-then-act across two mutexes; id counter bound). The logging clause is not decided.",
+         "Trusted: VC generator, solvers, eBPF map Put/Delete and the NAT logger as frame-only contracts, monitor model per mutex (no cross-mutex invariants).", "DESIGN.md §7 C10"),
  "C09": ("zero-annotation safety sweep: index/slice/nil/div/make obligations + loop variants with Houdini-inferred invariants over every function reachable from the network-facing decoders, counterexamples replayed on the real code",
          "Deductive proof of absence of run-time panics and of loop termination measures for the obligations recorded in spec/C09.baseline.json (about 1700 obligations, 117 fully clean functions) for all byte strings and all receiver states; obligations that need caller-side contracts are listed as undecided and not claimed.",
          "Trusted: VC generator, solvers, assumed library contracts (encoding/binary, net, hash, zap...), third-party decoders assumed not to panic, heap havoc at un-contracted calls and lock acquisitions.", "DESIGN.md §5 C09"),
